@@ -192,11 +192,16 @@ def _golden(args):
         res = faults.run_child(call)
         if res["status"] != "ok":
             return {"error": f"golden run failed: {res}"}
+        if task == "split":
+            # the names of the parts are the tool's choice: take them from
+            # the fault-free run
+            outs = sorted(x for x in d.rglob("*.rtdc") if x not in ins)
         missing = [str(o) for o in outs if not o.exists()]
         if missing:
             return {"error": f"golden run did not create {missing}; "
                              f"dir has {sorted(p.name for p in d.iterdir())}"}
         return {"K": res["count"], "trace": res["trace"],
+                "out_names": [str(o.relative_to(d)) for o in outs],
                 "digests": [content_digest(o) for o in outs]}
     finally:
         shutil.rmtree(d, ignore_errors=True)
@@ -219,6 +224,7 @@ def _fault_case(args):
                              dict(tags, **extra)))
     try:
         ins, outs, call = prepare_inputs(task, variant, d, scratch)
+        outs = [d / nm for nm in golden["out_names"]]
         old_digest = None
         if preexist:
             # a complete older result already sits at the output path
